@@ -395,8 +395,8 @@ theorem closeF_open {cfg : Cfg} (wf : WF cfg) (f : Nat) (q : Bool) (d : List Rep
     (hs : s.shield = List.replicate cfg.nObjs (some false)) (hl : s.closeLog = [])
     (hin : ∀ e ∈ s.inner, InnerOk cfg e) (hq : q = true → 1 ≤ s.callsMade ∧ s.flying = false) :
     Mid cfg s.nextId q d (closeF cfg (f + 2) s) ∧
-      (∃ j, j ≤ cfg.protos.length ∧ (closeF cfg (f + 2) s).closeLog = List.range' 0 j ∧
-        ((closeF cfg (f + 2) s).flying = false → j = cfg.protos.length)) ∧
+      (∃ j, j ≤ (cfg.protos.take s.handlers).length ∧ (closeF cfg (f + 2) s).closeLog = List.range' 0 j ∧
+        ((closeF cfg (f + 2) s).flying = false → j = (cfg.protos.take s.handlers).length)) ∧
       (BenignProtos cfg → s.flying = false → (closeF cfg (f + 2) s).flying = false) := by
   have hb0 := isBlocking_open s cfg.nObjs 0 hs
   have hb1 := isBlocking_open s cfg.nObjs cfg.pushObj hs
@@ -409,8 +409,9 @@ theorem closeF_open {cfg : Cfg} (wf : WF cfg) (f : Nat) (q : Bool) (d : List Rep
                shield := List.replicate cfg.nObjs (some true) } :=
     ⟨rfl, hr, hc, hn, rfl, rfl, hin, hq⟩
   obtain ⟨a, ⟨j, hj, hlog, hfull⟩, c⟩ :=
-    closeProtos_mid wf.maxCalls (cached_closeF cfg f) cfg.protos 0 _ h0
-  exact ⟨a, ⟨j, hj, by simpa [hl] using hlog, hfull⟩, fun hb hf => c hb hf⟩
+    closeProtos_mid wf.maxCalls (cached_closeF cfg f) (cfg.protos.take s.handlers) 0 _ h0
+  exact ⟨a, ⟨j, hj, by simpa [hl] using hlog, hfull⟩,
+    fun hb hf => c (fun p hp => hb p (List.mem_of_mem_take hp)) hf⟩
 
 /-! ### nothing but the setter touches the registered listener -/
 
@@ -509,10 +510,13 @@ structure Inv' (cfg : Cfg) (s : St) : Prop where
   closed : ∀ x, s.pending = some x →
     s.shield = List.replicate cfg.nObjs (some true) ∧ s.pushOn = false ∧
       s.closeLog <+: List.range' 0 cfg.protos.length ∧
-      (BenignProtos cfg → s.closeLog = List.range' 0 cfg.protos.length)
+      (BenignProtos cfg → ∃ h, s.closeLog = List.range' 0 (cfg.protos.take h).length)
   inner : ∀ e ∈ s.inner, InnerOk cfg e
 
 def Inv (cfg : Cfg) (s : St) : Prop := Inv' cfg s ∧ s.flying = false
+
+theorem take_len_le {α : Type} (n : Nat) (l : List α) : (l.take n).length ≤ l.length := by
+  simp [List.length_take]; omega
 
 theorem range'_prefix (j n : Nat) (h : j ≤ n) : List.range' 0 j <+: List.range' 0 n := by
   obtain ⟨m, rfl⟩ := Nat.exists_eq_add_of_le h
@@ -521,7 +525,7 @@ theorem range'_prefix (j n : Nat) (h : j ≤ n) : List.range' 0 j <+: List.range
 
 theorem Inv'.of_mid {cfg : Cfg} {x q s} (h : Mid cfg x q [] s)
     (hlog : s.closeLog <+: List.range' 0 cfg.protos.length)
-    (hben : BenignProtos cfg → s.closeLog = List.range' 0 cfg.protos.length)
+    (hben : BenignProtos cfg → ∃ h, s.closeLog = List.range' 0 (cfg.protos.take h).length)
     (hlive : s.listener ≠ .dead) : Inv' cfg s :=
   ⟨h.raised, h.calls, by obtain ⟨l, hl⟩ := h.notif; exact ⟨l, by simpa using hl⟩, hlive, by simp [h.pending],
     fun _ _ => ⟨h.shield, h.pushOn, hlog, hben⟩, h.inner⟩
@@ -554,10 +558,11 @@ theorem inv_close {cfg : Cfg} (wf : WF cfg) {s : St} (h : Inv cfg s) :
     obtain ⟨hm, ⟨j, hj, hl, hfull⟩, hben⟩ :=
       closeF_open wf 0 false [] s hp h.raised h.calls
         (by obtain ⟨l, hl⟩ := h.notif; exact ⟨l, by simp [hl]⟩) hsh hlog h.inner (by simp)
-    refine ⟨Inv'.of_mid hm (by rw [hl]; exact range'_prefix j _ hj) ?_
+    refine ⟨Inv'.of_mid hm
+      (by rw [hl]; exact range'_prefix j _ (Nat.le_trans hj (take_len_le _ _))) ?_
       (by rw [closeF_keepL cfg topFuel s]; exact h.live), ⟨_, hm.pending⟩, fun hb => hben hb hfl⟩
     intro hb
-    rw [hl, hfull (hben hb hfl)]
+    exact ⟨s.handlers, by rw [hl, hfull (hben hb hfl)]⟩
 
 theorem inv_report {cfg : Cfg} (wf : WF cfg) {s : St} (h : Inv cfg s) (r : Report) (b : Beh) :
     Inv' cfg (reportWith cfg (closeF cfg topFuel) s r b) ∧
@@ -569,7 +574,8 @@ theorem inv_report {cfg : Cfg} (wf : WF cfg) {s : St} (h : Inv cfg s) (r : Repor
   | some x =>
     obtain ⟨a, bb, _⟩ := reportWith_mid wf.maxCalls (cached_closeF cfg 1) (h.to_mid hp) hfl r b
     obtain ⟨_, _, hlg, hbn⟩ := h.closed x hp
-    exact ⟨Inv'.of_mid a (by rw [bb.1.2.2]; exact hlg) (fun hb => by rw [bb.1.2.2]; exact hbn hb) hlive,
+    exact ⟨Inv'.of_mid a (by rw [bb.1.2.2]; exact hlg)
+      (fun hb => by obtain ⟨h0, hh⟩ := hbn hb; exact ⟨h0, by rw [bb.1.2.2]; exact hh⟩) hlive,
       ⟨x, a.pending⟩⟩
   | none =>
     obtain ⟨hrs, hlog, hsh⟩ := h.opened hp
@@ -584,8 +590,9 @@ theorem inv_report {cfg : Cfg} (wf : WF cfg) {s : St} (h : Inv cfg s) (r : Repor
           hp h.raised (by simp [hrs, hc0]) ⟨.none, by simp [firstOf, hnot]⟩ hsh hlog h.inner
           (fun _ => ⟨by simp, hfl⟩)
       have hff := (hm.quiet rfl).2
-      exact ⟨Inv'.of_mid hm (by rw [hlg]; exact range'_prefix j _ hj)
-        (fun _ => by rw [hlg, hfull hff]) hlive, ⟨_, hm.pending⟩⟩
+      exact ⟨Inv'.of_mid hm
+        (by rw [hlg]; exact range'_prefix j _ (Nat.le_trans hj (take_len_le _ _)))
+        (fun _ => ⟨s.handlers, by rw [hlg, hfull hff]⟩) hlive, ⟨_, hm.pending⟩⟩
     · rw [reportWith_alive r b hno hl] at hlive ⊢
       obtain ⟨hm, ⟨j, hj, hlg, hfull⟩, _⟩ :=
         closeF_open wf 0 true [r] { s with reports := s.reports ++ [r], callsMade := s.callsMade + 1 }
@@ -599,8 +606,9 @@ theorem inv_report {cfg : Cfg} (wf : WF cfg) {s : St} (h : Inv cfg s) (r : Repor
       have hlg' : (closeF cfg topFuel
           { s with reports := s.reports ++ [r], callsMade := s.callsMade + 1 }).closeLog
           = List.range' 0 j := hlg
-      exact ⟨Inv'.of_mid a (by rw [bb.1.2.2, hlg']; exact range'_prefix j _ hj)
-        (fun _ => by rw [bb.1.2.2, hlg', hfull hff]) hlive, ⟨_, a.pending⟩⟩
+      exact ⟨Inv'.of_mid a
+        (by rw [bb.1.2.2, hlg']; exact range'_prefix j _ (Nat.le_trans hj (take_len_le _ _)))
+        (fun _ => ⟨s.handlers, by rw [bb.1.2.2, hlg', hfull hff]⟩) hlive, ⟨_, a.pending⟩⟩
     · exact absurd hl h.live
 
 /-- user code inside a PushListener callback: API calls and `close()` calls like any other -/
@@ -667,6 +675,17 @@ theorem inv_step {cfg : Cfg} (wf : WF cfg) {s : St} (h : Inv cfg s) (e : Ev) :
     cases b <;> simp
   | setPushListener b =>
     exact ⟨⟨h.1.raised, h.1.calls, h.1.notif, h.1.live, h.1.opened, h.1.closed, h.1.inner⟩, h.2⟩
+  | connectNext =>
+    exact ⟨⟨h.1.raised, h.1.calls, h.1.notif, h.1.live, h.1.opened, h.1.closed, h.1.inner⟩, h.2⟩
+  | pushStartFault =>
+    simp only [step]
+    split
+    · exact h
+    · rename_i hb
+      refine ⟨⟨h.1.raised, h.1.calls, h.1.notif, h.1.live, h.1.opened, ?_, h.1.inner⟩, h.2⟩
+      intro x hx
+      have := isBlocking_closed s cfg.nObjs cfg.pushObj (h.1.closed x hx).1 wf.push
+      exact absurd this hb
   | pushStart =>
     simp only [step]
     split
@@ -815,7 +834,7 @@ theorem closeF_grows (cfg : Cfg) : ∀ f, Mono (closeF cfg f) := by
         dsimp only
         split
         · exact h0.trans hb
-        · exact (h0.trans hb).trans (closeProtos_grows (cfg := cfg) ih cfg.protos 0 _)
+        · exact (h0.trans hb).trans (closeProtos_grows (cfg := cfg) ih _ 0 _)
 
 theorem step_grows (cfg : Cfg) (s : St) (e : Ev) : Grows s (step cfg s e).1 := by
   cases e with
@@ -835,6 +854,8 @@ theorem step_grows (cfg : Cfg) (s : St) (e : Ev) : Grows s (step cfg s e).1 := b
   | dropDevice => exact ⟨List.prefix_refl _, List.prefix_refl _, id⟩
   | setListener b => exact ⟨List.prefix_refl _, List.prefix_refl _, id⟩
   | setPushListener b => exact ⟨List.prefix_refl _, List.prefix_refl _, id⟩
+  | connectNext => exact ⟨List.prefix_refl _, List.prefix_refl _, id⟩
+  | pushStartFault => simp only [step]; split <;> exact Grows.refl s
   | pushStart => simp only [step]; split <;> exact Grows.refl s
   | pushStop => simp only [step]; split <;> exact Grows.refl s
   | push i b =>
@@ -873,6 +894,8 @@ theorem closed_of_closing {cfg : Cfg} (wf : WF cfg) {s : St} (h : Inv cfg s) (e 
   | dropDevice => simp [Ev.isClosing] at he
   | setListener b => simp [Ev.isClosing] at he
   | setPushListener b => simp [Ev.isClosing] at he
+  | connectNext => simp [Ev.isClosing] at he
+  | pushStartFault => simp [Ev.isClosing] at he
   | pushStart => simp [Ev.isClosing] at he
   | pushStop => simp [Ev.isClosing] at he
   | push i b => simp [Ev.isClosing] at he
@@ -900,6 +923,8 @@ theorem step_closed_frame {cfg : Cfg} (wf : WF cfg) (s : St) (x : Nat) (h : Inv 
   | dropDevice => exact ⟨rfl, rfl, rfl⟩
   | setListener b => exact ⟨rfl, rfl, rfl⟩
   | setPushListener b => exact ⟨rfl, rfl, rfl⟩
+  | connectNext => exact ⟨rfl, rfl, rfl⟩
+  | pushStartFault => simp only [step]; split <;> exact Frame.refl s
   | pushStart => simp only [step]; split <;> exact Frame.refl s
   | pushStop => simp only [step]; split <;> exact Frame.refl s
   | push i b =>
